@@ -37,6 +37,26 @@ def scan_callers(db, names):
     return out
 
 
+def finder_functions(db):
+    """the function(s) handed to the backend's context-free translations as 'find the sandbox that owns this address' - identified by
+    that use, not by name"""
+    out = {}
+    for f in db.functions:
+        if f["dep"] or "body" not in f or not f["n"].startswith(SB + "::") or f["sn"] not in ENTRY or ENTRY[f["sn"]][1] is not None:
+            continue
+        try:
+            ps = q.paths(db, f)
+        except Inconclusive:
+            continue
+        for p in ps:
+            for e in p.events:
+                if e.kind == "CALL" and q.short(e.a) == ENTRY[f["sn"]][0] and len(e.b) >= 3 and isinstance(e.b[2], tuple) and e.b[2][:1] == ("fn",):
+                    g = db.fn_by_id.get(e.b[2][2]) if len(e.b[2]) > 2 else None
+                    if g is not None:
+                        out[g["id"]] = g
+    return out
+
+
 def enum_arg(s):
     return (s or "").split("::")[-1]
 
@@ -70,18 +90,19 @@ def run(rep, tier):
                 rep.ok("R-C04-only-via", fn["n"], "calls %s" % callee, "%s | %s" % (label, loc), nontrivial=False)
             else:
                 rep.violation("R-C04-only-via", fn["n"] + " [direct backend translation]", "%s calls %s directly, bypassing the null short-circuit of the translation entry points" % (fn["n"], callee), loc, label)
+        finders = finder_functions(db)
         for f in db.functions:
             if f["dep"] or "body" not in f:
                 continue
             inst = "%s | %s" % (label, f["full"][:170])
             try:
-                if f["n"].startswith(SB + "::") and f["sn"] in ENTRY:
+                if f["id"] in finders:
+                    check_find(rep, db, f, inst); cnt("find")
+                elif f["n"].startswith(SB + "::") and f["sn"] in ENTRY:
                     check_entry(rep, db, f, inst); cnt("entry")
                 elif f["n"] == "rlbox::detail::convert_type_non_class":
                     if check_route(rep, db, f, inst):
                         cnt("route")
-                elif f["n"] == SB + "::find_sandbox_from_example":
-                    check_find(rep, db, f, inst); cnt("find")
                 elif f["sn"] in IMPL and not label.startswith("model32"):
                     check_identity(rep, db, f, inst); cnt("identity")
                 elif is_example_user(f):
@@ -120,7 +141,7 @@ def check_entry(rep, db, f, inst):
                 return
             if obj is None:
                 ex = ("p", f["params"][1]["n"])
-                if len(e.b) < 3 or e.b[1] != ex or not (isinstance(e.b[2], tuple) and e.b[2][:1] == ("fn",) and e.b[2][1].endswith("find_sandbox_from_example")):
+                if len(e.b) < 3 or e.b[1] != ex or not (isinstance(e.b[2], tuple) and e.b[2][:1] == ("fn",) and e.b[2][1].split("<")[0].startswith(SB)):
                     rep.violation(rule, site(f), "the context-free translation does not forward the example address and the sandbox finder", f["loc"], inst)
                     return
             if strip_casts(p.retval) != (e.extra or {}).get("ret"):
@@ -193,6 +214,16 @@ def check_route(rep, db, f, inst):
             if not (isinstance(v, tuple) and v[0] in ("call", "ucall") and q.short(v[1] if v[0] == "call" else v[2]) == want):
                 rep.violation(rule, site(f), "Direction=%s Context=%s must translate with %s; the value stored is %s" % (direction, context, want, fmt(v)[:120]), f["loc"], inst)
                 return True
+            # the pointer's static type must reach the backend: backends that represent function pointers differently from data
+            # pointers (tables) select on it
+            app_t = Fr if direction == "TO_SANDBOX" else To
+            app_c = app_t.get("el") if is_arr(app_t) and app_t.get("k") == "array" else (first_targ(app_t.get("c") or "") if is_arr(app_t) else app_t.get("c"))
+            ce = next((c_ for c_ in p.events[:i + 1][::-1] if c_.kind == "CALL" and q.short(c_.a) == want), None)
+            tas = (ce.extra or {}).get("ta") if ce is not None else None
+            if tas and app_c and norm_t(tas[0]) != norm_t(app_c):
+                rep.violation(rule, site(f), "the backend translation is instantiated for '%s' although the pointer converted has type '%s': a backend that distinguishes function pointers from data pointers "
+                              "translates it as the wrong kind" % (tas[0], app_c), ce.loc, inst)
+                return True
             args = q.call_args(v)
             if not is_read_of(args[0], src):
                 rep.violation(rule, site(f), "the value translated is %s, not the source %s" % (fmt(args[0]), fmt(src)), f["loc"], inst)
@@ -225,6 +256,28 @@ def check_route(rep, db, f, inst):
         return True
     rep.ok(rule, site(f), "%s/%s routes through %s" % (direction, context, want or "value copy"), inst)
     return True
+
+
+def norm_t(c):
+    import re
+    c = re.sub(r"\b(const|volatile)\b", "", c or "")
+    return re.sub(r"\s+", "", c)
+
+
+def first_targ(c):
+    """element type of std::array<T, N>"""
+    i = c.find("<")
+    if i < 0:
+        return None
+    depth, j = 0, i + 1
+    for j in range(i + 1, len(c)):
+        if c[j] in "<(":
+            depth += 1
+        elif c[j] in ">)":
+            depth -= 1
+        elif c[j] == "," and depth == 0:
+            break
+    return c[i + 1:j].strip()
 
 
 def first_extent(c):
